@@ -399,7 +399,7 @@ func (c *Check) Finish() bool {
 		dir = filepath.Join(Home(), ".work", "parts")
 	}
 	os.MkdirAll(dir, 0755)
-	if err := os.WriteFile(filepath.Join(dir, fmt.Sprintf("%s.part%d.json", c.ID, shard)), b, 0644); err != nil {
+	if err := os.WriteFile(filepath.Join(dir, fmt.Sprintf("%s.part%s%d.json", c.ID, os.Getenv("VERIF_PART_TAG"), shard)), b, 0644); err != nil {
 		fmt.Printf("BROKEN cannot write evidence part: %v\n", err)
 	}
 	keys := make([]string, 0, len(c.known))
